@@ -21,4 +21,8 @@ C01Inv == Applies => C01Ok(R)
 C02Inv == Applies => C02Ok(R)
 C06Inv == Applies => C06Ok(R)
 C07Inv == Applies => C07Ok(R)
+\* a duration of 10^6 beats or more (7+ digits) is about 10^9 ticks: no delta time can hold it, whatever follows
+\* (the numbers themselves are beyond TLC's integers, so the record carries the digits)
+AbsurdInv == R.kind = "absurd" => /\ Len(R.digits) >= 7 /\ R.digits[1] \in 49..57 /\ \A i \in 1..Len(R.digits) : R.digits[i] \in 48..57
+                                  /\ R.refused
 =============================================================================
